@@ -11,12 +11,17 @@ RULE = ("cases: op sequences on the real CTxMemPool: single submissions (with re
         "version 2/3 mixes, 0/1/2 mempool parents, parents with 0/1/2 children, grandparents, in-package parents/siblings/children; "
         "histories with forced additions (reorg-like states: several children, chains of 3) are compared but not judged; "
         "limits cases: a second real CTxMemPool configured with cluster_count 1-8 and cluster_size 300-1000 vB: chains, stars, merges of "
-        "clusters by one transaction, total weight at the limit -4/0/+4, CheckPolicyLimits queries and limit-checked additions, removals. "
+        "clusters by one transaction, total weight at the limit -4/0/+4, CheckPolicyLimits queries and limit-checked additions, removals; "
+        "accept3 cases: version-2/3 transactions through the real ProcessTransaction / ProcessNewPackage on a regtest chain (driver of C29): "
+        "1-parent-1-child in every version mix with child vsize TRUC_CHILD_MAX_VSIZE/+1 and TRUC_MAX_VSIZE/+1, oversized parents, two "
+        "parents, grandparents in the mempool or in the package, low-fee parents that push the TRUC checks into package evaluation. "
         "non-trivial = at least 3 ops; distinct = distinct case lines")
 ASSUMPTIONS = ["acceptance applies exactly the answers of SingleTRUCChecks / PackageTRUCChecks (the other acceptance rules only reject more); "
                "the driver applies them on the real mempool the way PreChecks / ReplacementChecks do",
                "no block disconnection: histories judged by the predicate contain no forced additions (the statement excludes reorganizations)",
-               "memory-usage / TrimToSize / ephemeral-dust clauses of C27 are not covered by this check (see LEVEL_NOTE)"]
+               "memory-usage / TrimToSize / ephemeral-dust clauses of C27 are not covered by this check (see LEVEL_NOTE)",
+               "accept3 scenarios: no output is spent twice and no transaction gets two children, so neither RBF nor sibling eviction is "
+               "triggered end-to-end (both are covered by the op-sequence tie on the real check functions and mempool)"]
 TRUSTED = ["Coq 8.16.1 kernel (coqc)",
            "tie/dump_params.cpp + tie/params/mempoolpol.h print the TRUC_* and cluster limit constants from the compiled tree",
            "extraction: ExtrOcamlBasic only; ocaml/conv.ml + truc_driver.ml glue",
@@ -372,8 +377,10 @@ LEVEL_TEXT = ("Coq theorems over all mempools and all op sequences: what SingleT
               "one parent, no grandparent, version inheritance, no second child unless it is replaced or evicted), and the topology "
               "invariant (every version-3 transaction has at most one unconfirmed parent and one unconfirmed child, both version 3, "
               "never both, within the size caps; no non-version-3 transaction has a version-3 parent) is preserved by every single "
-              "submission the rules accept (including replacement and sibling eviction) and by every removal. Model tied to the real "
-              "check functions and the real mempool graph by differential execution of op sequences.")
+              "submission the rules accept (including replacement and sibling eviction), every package submission and every removal; no "
+              "version-3 transaction ever has more than 2 ancestors or descendants. The cluster count/size decision is the stated bound "
+              "on every connected component. Model tied to the real check functions and the real mempool graph by differential execution "
+              "of op sequences, to a real mempool with small cluster limits, and end-to-end to ProcessTransaction / ProcessNewPackage.")
 LEVEL_NOTE = ("Partial: the TRUC topology clause and the cluster count/size decision are covered; memory usage / TrimToSize / minimum "
               "feerate after eviction and the ephemeral-dust clauses are not. Trusted: Coq kernel, dump_params.cpp, extraction + driver glue.")
 TECHNIQUE = "Coq proof (inductive invariant over op sequences) + differential correspondence on the real mempool"
